@@ -112,7 +112,7 @@ def explore_hw(build, make_observer, cfg, tier, seed, *, only=None, max_states=1
                                                   where=d["where"])))
     ob = make_observer(cfg, h, comp)
     r = bfs((comp.init, ob.init), comp.step, ob.letters, ob.observe, max_states=max_states,
-            max_seconds=max_seconds, max_depth=max_depth,
+            max_seconds=max_seconds, max_depth=max_depth, prefixes=(ob.prefixes() if hasattr(ob, "prefixes") else ()),
             on_edge=(None if on_edge is None else on_edge(ob)), pass_hw=pass_hw)
     t_bfs = time.time() - t0
     res = dict(states=r.states, transitions=r.transitions, max_depth=r.max_depth,
